@@ -8,6 +8,8 @@ CONSTANTS
     RecOff = 1
     RetBack = 1
     NextOff = 0
+    RegParamsOff = 1
+    MaxFlips = 2
     MarkFirst = FALSE
     SaveFirst = FALSE
     ExcuseTurn <- ExcuseFromEnv
